@@ -638,6 +638,8 @@ class ParserFactory:
         if len(p) > 6:
             p[0] = (p[2], p[4], p[6])
         else:
+            msg = 'Route must specify an argument, result, and error data type.'
+            self.errors.append((msg, p.lineno(1), self.path))
             p[0] = (p[2], p[4], None)
 
     def p_route_deprecation(self, p):
